@@ -124,6 +124,17 @@ def lookup (name : String) : EM Value := do
   | some v => pure v
   | none => pure {}
 
+/-- "int values can widen to long in assignments and calls": an int bound to a long slot is stored as a long -/
+def widenIntToLong (v : Value) : Value :=
+  if v.type == .Int then { v with type := .Long, longValue := v.intValue } else v
+
+def widenLike (slot v : Value) : Value := if slot.type == .Long then widenIntToLong v else v
+
+def widenFor (declared : Ty) (v : Value) : Value :=
+  match declared with
+  | .prim "long" => widenIntToLong v
+  | _ => v
+
 /-- `assign` (class-free part): innermost existing binding, else a new one in the top scope -/
 def assignVar (name : String) (v : Value) : EM Unit := do
   let st ← get
@@ -134,7 +145,7 @@ def assignVar (name : String) (v : Value) : EM Unit := do
       | some (_, old) =>
         let nv := if old.value.type == .Object && v.type == .Object && v.objectValue.isSome &&
             old.value.className != "" then { v with className := old.value.className } else v
-        some (sc.set name { old with value := nv, initialized := true } :: rest)
+        some (sc.set name { old with value := widenLike old.value nv, initialized := true } :: rest)
       | none => (go rest).map (sc :: ·)
   match go (st.env.take st.frameDepth) with
   | some env' => set { st with env := env' ++ st.env.drop st.frameDepth }
@@ -634,7 +645,7 @@ def withFrame {α : Type} (body : EM α) : EM α := do
 def declareParams : List (Param × Value) → EM Unit
   | [] => pure ()
   | (prm, a) :: rest => do
-    declareVar prm.name { value := a, tracked := false, initialized := true }
+    declareVar prm.name { value := widenFor prm.ty a, tracked := false, initialized := true }
     declareParams rest
 
 def postfixUpdate (op : String) (current : Value) : Value :=
@@ -933,7 +944,7 @@ def exec (fuel : Nat) (s : Stmt) : EM Unit :=
     | .varDecl name ty init _ _ isTracked p => do
       let d ← declDefault (eval fuel) name ty init.isNone p
       let vi ← declInit (eval fuel) (evalTypedElems fuel) ty init d.2 d.1 p
-      declareVar name { value := vi.1, tracked := isTracked, initialized := vi.2 }
+      declareVar name { value := widenFor ty vi.1, tracked := isTracked, initialized := vi.2 }
     | .block stmts _ => withScope (execSeq fuel stmts)
     | .expr e => do
       let _ ← eval fuel e
